@@ -12,11 +12,92 @@ RULE = ("each obligation is one Kani/CBMC query: the real uniqueness-testing ope
 QUICK = ["rc_step_get_mut", "rc_step_make_mut", "rc_step_try_unwrap__kf_stale_queue"]
 
 
+ROLE_EXPR = {"hm_union": ("hash-union", "(hash 'a 1 'b 2)", "(hash 'a 9 'c 3)")}
+
+
 def check(pid, tier, seed):
-    return p_rc.check(pid, tier, seed, QUICK, [],
-                      "in-place mutation (Gc::get_mut/make_mut/try_unwrap) is authorised only for the sole holder; "
-                      "the compiler's last-use analysis, which decides WHEN the count is 1, is outside the claim")
+    run = p_rc.check(pid, tier, seed, QUICK, [],
+                     "in-place mutation (Gc::get_mut/make_mut/try_unwrap) is authorised only for the sole holder; "
+                     "the compiler's last-use analysis, which decides WHEN the count is 1, is outside the claim")
+    roles_obligation(run)
+    return run
+
+
+def roles_obligation(run):
+    """E3o: the sharing arms of a collection primitive give the operands the same roles (lib/p_roles.py)"""
+    import os, re, json, shutil, subprocess, time
+    import ws, mir, p_bounds, p_roles
+    oid = "roles:sharing-arms-agree-on-operand-roles"
+    t0 = time.time()
+    try:
+        wsdir = ws.prepare("c03mir", [])
+        root = os.path.dirname(wsdir)
+        out = os.path.join(root, "steel_core.mir")
+        env = ws.mir_dump(wsdir, root, out)
+        reg = p_bounds.registered(os.path.join(wsdir, "crates", "steel-core", "src"))
+        wanted = set(reg) | {k[6:] for k, v in reg.items() if v[0] == "function"}
+        funcs = mir.parse(open(out).read(), lambda n: n.split("::")[-1] in wanted)
+        r = p_roles.analyse(funcs)
+    except Exception as ex:
+        run.ob(oid, "inconclusive", reason="extraction failed: %s" % str(ex)[-300:], engine="mir-smt")
+        return
+    common = dict(engine="mir-smt/z3", wall_s=round(time.time() - t0, 1), solver_s=round(r["dt"], 3), solver_checks=r["queries"])
+    run.samples.append({"engine": "mir-smt", "query": "per (procedure, library call) with several call sites whose two operands derive from two different parameters: exist two sites whose receiver derives from different parameters",
+                        "two-parameter call sites": r["groups"], "groups with several sites": r["multi_site_groups"][:24]})
+    run.functions.append("%d (procedure, callee) groups of script-callable procedures with several call sites taking one operand from each of two parameters (hash-union: 4 sharing arms, ...): operand roles per site (MIR)" % len(r["multi_site_groups"]))
+    run.assumptions.append("roles (E3o): a site is interpreted only when each operand derives from exactly one parameter (tuple projections reduced); which of the two roles is RIGHT is not decided, only that all arms agree -- a change that swaps the operands in every arm alike is not seen; comparisons (eq / cmp / ptr_eq) are excluded as symmetric")
+    if r["errors"] or len(r["multi_site_groups"]) < 5 or not any(g[0] == "hm_union" for g in r["multi_site_groups"]):
+        run.ob(oid, "inconclusive", reason="; ".join(r["errors"][:2]) or "vacuous: %d multi-site groups, hash-union's arms not recognised" % len(r["multi_site_groups"]), **common)
+        return
+    if not r["bad"]:
+        run.ob(oid, "pass", nonvacuous=True, note="%d groups: every site of a group gives the receiver role to the same parameter" % len(r["multi_site_groups"]), **common)
+        return
+    b = r["bad"][0]
+    what = "%s: the call sites of `%s` disagree on which parameter is the receiver (%s)" % (b["function"], b["callee"], ", ".join("bb%d: %s.%s(%s)" % (s["bb"], s["recv"], b["callee"], s["arg"]) for s in b["sites"]))
+    rec = ROLE_EXPR.get(b["function"])
+    if not rec:
+        run.ob(oid, "inconclusive", reason="solver: %s; no replay recipe for this procedure" % what, **common)
+        return
+    try:
+        shutil.copy(os.path.join(ws.VERIF, "harness", "arity_replay.rs"), os.path.join(wsdir, "crates", "steel-core", "tests", "verif_arity_replay.rs"))
+        p = subprocess.run(["cargo", "test", "--offline", "-p", "steel-core", "--no-default-features", "--features", ws.FEATURES,
+                            "--test", "verif_arity_replay", "--target-dir", os.path.join(root, "tn"), "--", "roles_replay", "--exact", "--nocapture"],
+                           cwd=wsdir, env=dict(env, VERIF_ROLE_CALL="|".join(rec)), capture_output=True, text=True, timeout=2400)
+        m = re.search(r"OBSERVED: (.*)", p.stdout + p.stderr)
+    except Exception as ex:
+        run.ob(oid, "inconclusive", reason="replay failed: %s" % str(ex)[-300:], **common)
+        return
+    if not m:
+        run.ob(oid, "inconclusive", reason="solver: %s; the four sharing patterns agreed natively" % what, **common)
+        return
+    d = os.path.join(ws.VERIF, "replays", run.pid)
+    os.makedirs(d, exist_ok=True)
+    path = os.path.join(d, "roles_%s.json" % b["function"])
+    json.dump({"property": run.pid, "kind": "roles", "what": what, "call": "|".join(rec), "observed": m.group(1), "how": "./check %s --replay <this file>" % run.pid}, open(path, "w"), indent=1)
+    key = "roles:%s" % b["function"]
+    if run.is_known(key):
+        run.known_hit(key, run.known[(run.pid, key)] + " -- " + m.group(1)[:200])
+        run.ob(oid, "known", nonvacuous=True, **common)
+    else:
+        run.violation(key, "%s; natively: %s" % (what, m.group(1)[:300]), path)
+        run.ob(oid, "fail", note=m.group(1)[:200], **common)
 
 
 def replay(pid, path):
+    import json
+    payload = json.load(open(path))
+    if payload.get("kind") == "roles":
+        import os, re, shutil, subprocess, ws
+        wsdir = ws.prepare("c03replay", [])
+        root = os.path.dirname(wsdir)
+        shutil.copy(os.path.join(ws.VERIF, "harness", "arity_replay.rs"), os.path.join(wsdir, "crates", "steel-core", "tests", "verif_arity_replay.rs"))
+        p = subprocess.run(["cargo", "test", "--offline", "-p", "steel-core", "--no-default-features", "--features", ws.FEATURES,
+                            "--test", "verif_arity_replay", "--target-dir", os.path.join(root, "tn"), "--", "roles_replay", "--exact", "--nocapture"],
+                           cwd=wsdir, env=dict(os.environ, CARGO_NET_OFFLINE="true", VERIF_ROLE_CALL=payload["call"]), capture_output=True, text=True)
+        m = re.search(r"OBSERVED: (.*)", p.stdout + p.stderr)
+        print("observed:", m.group(1) if m else "not reproduced")
+        if m:
+            print("VIOLATION property=%s replay=%s" % (pid, path))
+            return 1
+        return 0
     return p_rc.replay(pid, path)
